@@ -976,6 +976,17 @@ class DecoderLayout:
                     d = d.c if d is not None and not d.syms else None
                 one = len(w.body) == 1 and isinstance(w.body[0], ast.AugAssign) and U(w.body[0].target) == v \
                     and isinstance(w.body[0].op, ast.Add) and self.fold(w.body[0].value) == (True, 1)
+                step = 1
+                if not one and len(w.body) == 1:
+                    # the same scan with a step that is not +1 (v -= 1, v += 2, nothing at all): read as the scan it is meant to be, the
+                    # step is reported by the rule that compares the skip with decodeLength
+                    b0 = w.body[0]
+                    if isinstance(b0, ast.Pass):
+                        one, step = True, 0
+                    elif isinstance(b0, ast.AugAssign) and U(b0.target) == v and isinstance(b0.op, (ast.Add, ast.Sub)):
+                        okk, kv = self.fold(b0.value)
+                        if okk and isinstance(kv, int):
+                            one, step = True, (kv if isinstance(b0.op, ast.Add) else -kv)
                 if ok0 and isinstance(start, int) and d is not None and one:
                     # the scan looks at pkt[v+d] for v = start, start+1, ..: in terms of the index it tests, it starts at start+d and the
                     # variable part begins one past the index it stops at, i.e. at v+d+1
@@ -987,12 +998,12 @@ class DecoderLayout:
                         lo = nxt.value.slice.lower
                         plus = self._rel_to(lo, v) if lo is not None else None
                         plus = (plus.c - d) if plus is not None and not plus.syms else None
-                        self.hdr = {"found": True, "mask": m if okm else None, "start": start, "plus": plus, "node": w, "var": v, "d": d}
+                        self.hdr = {"found": True, "mask": m if okm else None, "start": start, "plus": plus, "node": w, "var": v, "d": d, "step": step}
                         self.cursors[nxt.targets[0].id] = Lin(0)
                         i += 3
                         continue
                     # the scan alone: what follows the fixed header is addressed as pkt[v+k:] where it is needed
-                    self.hdr = {"found": True, "mask": m if okm else None, "start": start, "plus": None, "node": w, "var": v, "d": d}
+                    self.hdr = {"found": True, "mask": m if okm else None, "start": start, "plus": None, "node": w, "var": v, "d": d, "step": step}
                     i += 2
                     continue
             self._stmt(s)
